@@ -718,3 +718,134 @@ def rmCount (k : κ) (tr : List (Ev κ)) : Nat :=
   tr.countP fun | .rm k' _ => decide (k' = k) | _ => false
 
 end Obs
+
+/-!
+## The connection-level machine with the REAL cache (`PLru`)
+
+`PConn` keeps the statement cache as a finite map and lets the environment purge any entry at any time. `PLru` is the
+same machine with `internal/lru` (Model/LRU.lean) as the cache: there is NO environment eviction - an entry is
+purged exactly when `lru.Cache.Add` inside a missing lookup's critical section finds the cache over its capacity
+(the least recently used entry goes, possibly one whose PREPARE is still in flight), a hit promotes the entry
+(`lru.Get` in execIfMissing), evictPreparedID promotes the entry it inspects (`lru.Get`) and `lru.Remove`s it if
+it decides to, and a failing flight `lru.Remove`s its key. Callers, flights' goroutines, the server and the
+caller contexts interleave exactly as in `PConn`.
+
+Proofs/C14ConnLRU.lean: every schedule of `PLru` is a schedule of `PConn` with the LRU's purges as `evict` actions
+(same trace - so `Obs` accepts it and every theorem about `PConn` schedules holds for it), the two caches hold
+the same entries at every point, and the cache never exceeds its capacity in any interleaving.
+-/
+namespace PLru
+open PConn
+
+structure State (κ : Type) where
+  p   : PConn.State κ
+  lru : LRU.Cache κ Nat
+
+/-- the actions of `PConn` without the environment's `evict` -/
+inductive Action (κ : Type)
+  | call (batch : Bool) (es : List (κ × Nat))
+  | lookup (c : Nat)
+  | spawn (c : Nat)
+  | srvPrepare (f : Nat) (r : PAns)
+  | complete (f : Nat)
+  | observe (c : Nat) (a : XAns)
+  | finish (c : Nat)
+  | cancel (c : Nat)
+  | abandon (c : Nat)
+  | abandonLate (c : Nat)
+  | srvLate (c : Nat) (a : XAns)
+
+variable {κ : Type} [DecidableEq κ]
+
+def init (cap : Int) : State κ := { p := PConn.init, lru := LRU.new cap }
+
+/-- whatever left the finite-map cache by `lru.Remove` (failing flight, evictPreparedID) leaves the LRU -/
+def syncRm (l : LRU.Cache κ Nat) : List (Ev κ) → LRU.Cache κ Nat
+  | [] => l
+  | .rm k _ :: es => syncRm (l.remove k).2.1 es
+  | _ :: es => syncRm l es
+
+/-- the LRU purged these keys: `PConn`'s action `evict`, once per key -/
+def evictAll (p : PConn.State κ) : List κ → Option (PConn.State κ × List (Ev κ))
+  | [] => some (p, [])
+  | k :: ks =>
+    match PConn.step p (.evict k) with
+    | none => none
+    | some (p1, e1) =>
+      match evictAll p1 ks with
+      | none => none
+      | some (p2, e2) => some (p2, e1 ++ e2)
+
+/-- the key the next `prepareStatement` of call c looks up -/
+def lookupKey (p : PConn.State κ) (c : Nat) : Option κ :=
+  match p.callers[c]? with
+  | none => none
+  | some cl => (cl.entries[cl.got.length]?).map (·.1)
+
+/-- the key evictPreparedID inspects when call c acts on an UNPREPARED answer -/
+def unprepLookup (p : PConn.State κ) (c : Nat) : Option κ :=
+  match p.callers[c]? with
+  | none => none
+  | some cl =>
+    match cl.pc with
+    | .answered (.unprep id) => unprepKey p cl id
+    | _ => none
+
+/-- an action that touches the cache only through `lru.Remove` (or not at all) -/
+def stepOther (s : State κ) (a : PConn.Action κ) : Option (State κ × List (Ev κ)) :=
+  match PConn.step s.p a with
+  | none => none
+  | some (p1, e1) => some ({ p := p1, lru := syncRm s.lru e1 }, e1)
+
+/-- execIfMissing: `lru.Get` (a hit promotes) or, in the same critical section, `lru.Add` of the new flight (a full
+    cache purges its least recently used entry) -/
+def stepLookup (s : State κ) (c : Nat) : Option (State κ × List (Ev κ)) :=
+  match lookupKey s.p c with
+  | none => none
+  | some k =>
+    match s.lru.get k with
+    | (some _, l') =>
+      match PConn.step s.p (.lookup c) with
+      | none => none
+      | some (p1, e1) => some ({ p := p1, lru := l' }, e1)
+    | (none, _) =>
+      match PConn.step s.p (.lookup c) with
+      | none => none
+      | some (p1, e1) =>
+        match evictAll p1 ((s.lru.add k s.p.flights.length).2.map (·.1)) with
+        | none => none
+        | some (p2, e2) => some ({ p := p2, lru := (s.lru.add k s.p.flights.length).1 }, e1 ++ e2)
+
+/-- the answer to the frame; on UNPREPARED evictPreparedID: `lru.Get` (promotes) before it decides -/
+def stepFinish (s : State κ) (c : Nat) : Option (State κ × List (Ev κ)) :=
+  match PConn.step s.p (.finish c) with
+  | none => none
+  | some (p1, e1) =>
+    some ({ p := p1, lru := syncRm (match unprepLookup s.p c with
+                                    | some k => (s.lru.get k).2
+                                    | none => s.lru) e1 }, e1)
+
+def step (s : State κ) : Action κ → Option (State κ × List (Ev κ))
+  | .lookup c => stepLookup s c
+  | .finish c => stepFinish s c
+  | .call b es => stepOther s (.call b es)
+  | .spawn c => stepOther s (.spawn c)
+  | .srvPrepare f r => stepOther s (.srvPrepare f r)
+  | .complete f => stepOther s (.complete f)
+  | .observe c a => stepOther s (.observe c a)
+  | .cancel c => stepOther s (.cancel c)
+  | .abandon c => stepOther s (.abandon c)
+  | .abandonLate c => stepOther s (.abandonLate c)
+  | .srvLate c a => stepOther s (.srvLate c a)
+
+def run (s : State κ) : List (Action κ) → Option (State κ × List (Ev κ))
+  | [] => some (s, [])
+  | a :: as =>
+    match step s a with
+    | none => none
+    | some (s', evs) =>
+      match run s' as with
+      | none => none
+      | some (s'', evs') => some (s'', evs ++ evs')
+
+end PLru
